@@ -368,6 +368,9 @@ func checkC07(c *C07Case) *Violation {
 // parameters given positionally, by name, by font config or by CLI default.
 func (c *C07Case) viaCompiler() (*Violation, string) {
 	lit := `"` + c.text() + `"`
+	if (len(c.Items)+c.Plumb)%2 == 0 {
+		lit = strings.ReplaceAll(lit, "\n", "\r\n") // the same literal in a file with CRLF line ends
+	}
 	o := Opts{FontJSON: c.fontJSON()}
 	font := c.Font
 	var params []string
